@@ -22,10 +22,11 @@ CONSTANTS MaxObj,      \* maximal number of objects alive
           Kind,        \* "DDF" | "SVF" | "FFD" | "SVFFD"
           Holder0,     \* holder of the first object: "param" | "tensor" | "callable"
           Grids,       \* grid ids the kind can be moved to, first element = initial grid
+          InitVer,     \* parameter version the first object starts with (0 = freshly constructed identity)
           EmitCases
 
-VARIABLES alive, holder, target, cell, content, pbuf, cond, grid, inv, bufU, nextver, nextcell, hist
-vars == <<alive, holder, target, cell, content, pbuf, cond, grid, inv, bufU, nextver, nextcell, hist>>
+VARIABLES alive, holder, target, cell, content, pbuf, pgrid, cond, grid, inv, bufU, nextver, nextcell, hist
+vars == <<alive, holder, target, cell, content, pbuf, pgrid, cond, grid, inv, bufU, nextver, nextcell, hist>>
 
 Obj   == 1..MaxObj
 None  == -1000                       \* "no value" marker for versions
@@ -63,13 +64,14 @@ Init ==
     /\ holder = [o \in Obj |-> IF o = 1 THEN Holder0 ELSE "none"]
     /\ target = [o \in Obj |-> 0]
     /\ cell = [o \in Obj |-> IF o = 1 THEN 1 ELSE 0]
-    /\ content = [c \in 1..MaxCells |-> 0]          \* default parameters: version 0 = identity
+    /\ content = [c \in 1..MaxCells |-> IF c = 1 THEN InitVer ELSE 0]   \* version 0 = default parameters = identity
     /\ pbuf = [o \in Obj |-> IF o = 1 /\ Holder0 = "callable" THEN PVal_(0) ELSE PNone]
-    /\ cond = [o \in Obj |-> 0]
+    /\ pgrid = [o \in Obj |-> Grids[1]]      \* the grid whose units the prediction buffer p is expressed in
+    /\ cond = [o \in Obj |-> IF o = 1 THEN InitVer ELSE 0]
     /\ grid = [o \in Obj |-> Grids[1]]
     /\ inv = [o \in Obj |-> FALSE]
     /\ bufU = [o \in Obj |-> NoBuf]
-    /\ nextver = 1
+    /\ nextver = InitVer + 1
     /\ nextcell = 2
     /\ hist = <<>>
 
@@ -87,6 +89,7 @@ UpdatedP(o)   == IF holder[o] = "callable" THEN PVal_(cond[o])
 Update(o) ==
     /\ Room /\ o \in alive /\ holder[o] # "none"
     /\ pbuf' = [pbuf EXCEPT ![o] = UpdatedP(o)]
+    /\ pgrid' = [pgrid EXCEPT ![o] = grid[o]]
     /\ bufU' = [bufU EXCEPT ![o] = UpdatedBuf(o)]
     /\ Log("update", o, "", 0, {})
     /\ UNCHANGED <<alive, holder, target, cell, content, cond, grid, inv, nextver, nextcell>>
@@ -95,6 +98,7 @@ Update(o) ==
 Call(o) ==
     /\ Room /\ o \in alive /\ holder[o] # "none"
     /\ pbuf' = [pbuf EXCEPT ![o] = UpdatedP(o)]
+    /\ pgrid' = [pgrid EXCEPT ![o] = grid[o]]
     /\ bufU' = [bufU EXCEPT ![o] = UpdatedBuf(o)]
     /\ Log("call", o, "", 0, {Now(o).ver})
     /\ UNCHANGED <<alive, holder, target, cell, content, cond, grid, inv, nextver, nextcell>>
@@ -105,9 +109,10 @@ Disp(o) ==
     /\ Room /\ o \in alive /\ holder[o] # "none"
     /\ IF bufU[o] = NoBuf
        THEN /\ pbuf' = [pbuf EXCEPT ![o] = UpdatedP(o)]
+            /\ pgrid' = [pgrid EXCEPT ![o] = grid[o]]
             /\ bufU' = [bufU EXCEPT ![o] = UpdatedBuf(o)]
             /\ Log("disp", o, "", 0, {Now(o).ver})
-       ELSE /\ UNCHANGED <<pbuf, bufU>>
+       ELSE /\ UNCHANGED <<pbuf, pgrid, bufU>>
             /\ Log("disp", o, "", 0, {bufU[o].ver, Now(o).ver})
     /\ UNCHANGED <<alive, holder, target, cell, content, cond, grid, inv, nextver, nextcell>>
 
@@ -119,7 +124,7 @@ Data_(o) ==
     /\ bufU' = [bufU EXCEPT ![o] = NoBuf]
     /\ nextver' = nextver + 1 /\ nextcell' = nextcell + 1
     /\ Log("data_", o, nextver, 0, {})
-    /\ UNCHANGED <<alive, holder, target, pbuf, cond, grid, inv>>
+    /\ UNCHANGED <<alive, holder, target, pbuf, pgrid, cond, grid, inv>>
 
 \* optimiser-style in-place update of the parameter tensor: seen by everyone sharing the tensor; buffers stay
 InPlaceEdit(o) ==
@@ -127,7 +132,7 @@ InPlaceEdit(o) ==
     /\ content' = [content EXCEPT ![cell[o]] = nextver]
     /\ nextver' = nextver + 1
     /\ Log("inplace", o, nextver, 0, {})
-    /\ UNCHANGED <<alive, holder, target, cell, pbuf, cond, grid, inv, bufU, nextcell>>
+    /\ UNCHANGED <<alive, holder, target, cell, pbuf, pgrid, cond, grid, inv, bufU, nextcell>>
 
 \* reset_parameters(): back to the identity, buffers dropped
 Reset(o) ==
@@ -139,7 +144,7 @@ Reset(o) ==
        ELSE content' = [content EXCEPT ![cell[o]] = 0] /\ UNCHANGED pbuf
     /\ bufU' = [bufU EXCEPT ![o] = NoBuf]
     /\ Log("reset", o, "", 0, {})
-    /\ UNCHANGED <<alive, holder, target, cell, cond, grid, inv, nextver, nextcell>>
+    /\ UNCHANGED <<alive, holder, target, cell, pgrid, cond, grid, inv, nextver, nextcell>>
 
 \* t.grid_(g): new grid; dense/spline parameters are re-expressed so that the WORLD deformation is kept
 \* (the version is unchanged; the re-expressed parameters are a new tensor); buffers are dropped
@@ -156,7 +161,7 @@ Grid_(o, g) ==
        ELSE UNCHANGED <<cell, content, nextcell>>
     /\ bufU' = [bufU EXCEPT ![o] = NoBuf]
     /\ Log("grid_", o, g, 0, {})
-    /\ UNCHANGED <<alive, holder, target, pbuf, cond, inv, nextver>>
+    /\ UNCHANGED <<alive, holder, target, pbuf, pgrid, cond, inv, nextver>>
 
 \* t.condition_(c): new arguments for a parameter-predicting callable; buffers are dropped
 Condition_(o) ==
@@ -165,13 +170,13 @@ Condition_(o) ==
     /\ nextver' = nextver + 1
     /\ bufU' = [bufU EXCEPT ![o] = NoBuf]
     /\ Log("condition_", o, nextver, 0, {})
-    /\ UNCHANGED <<alive, holder, target, cell, content, pbuf, grid, inv, nextcell>>
+    /\ UNCHANGED <<alive, holder, target, cell, content, pbuf, pgrid, grid, inv, nextcell>>
 
 ClearBuffers(o) ==
     /\ Room /\ o \in alive /\ bufU[o] # NoBuf
     /\ bufU' = [bufU EXCEPT ![o] = NoBuf]
     /\ Log("clear_buffers", o, "", 0, {})
-    /\ UNCHANGED <<alive, holder, target, cell, content, pbuf, cond, grid, inv, nextver, nextcell>>
+    /\ UNCHANGED <<alive, holder, target, cell, content, pbuf, pgrid, cond, grid, inv, nextver, nextcell>>
 
 \* ---------------------------------------------------------------- accessors returning a NEW object
 \* every one of them leaves the receiver (and everything else) exactly as it was   (CopiesIndependent)
@@ -183,12 +188,16 @@ NewFrom(o, n) ==
 \* t.inverse(link, update_buffers) / t.inv
 Inverse(o, lnk, ub) ==
     /\ Room /\ Invertible /\ CanCreate /\ o \in alive /\ holder[o] # "none"
+    \* a link reads the target's prediction buffer p as it is; that is meaningful only if p was computed for the
+    \* target's current grid (a prediction made before a grid change is in the units of the old grid)
+    /\ lnk => (holder[o] \in {"param", "tensor"} \/ pgrid[o] = grid[o])
     /\ LET n == FreshObj IN
        /\ alive' = alive \cup {n}
        /\ holder' = [holder EXCEPT ![n] = IF lnk THEN "link" ELSE holder[o]]
        /\ target' = [target EXCEPT ![n] = IF lnk THEN o ELSE target[o]]
        /\ cell' = [cell EXCEPT ![n] = cell[o]]
        /\ pbuf' = [pbuf EXCEPT ![n] = IF lnk /\ pbuf[o] = PNone THEN HeldRef(o) ELSE pbuf[o]]
+       /\ pgrid' = [pgrid EXCEPT ![n] = pgrid[o]]
        /\ cond' = [cond EXCEPT ![n] = cond[o]]
        /\ grid' = [grid EXCEPT ![n] = grid[o]]
        /\ inv' = [inv EXCEPT ![n] = ~inv[o]]
@@ -208,6 +217,7 @@ DataCopy(o) ==
        /\ cell' = [cell EXCEPT ![n] = nextcell]
        /\ content' = [content EXCEPT ![nextcell] = nextver]
        /\ pbuf' = [pbuf EXCEPT ![n] = PNone]
+       /\ pgrid' = [pgrid EXCEPT ![n] = pgrid[o]]
        /\ cond' = [cond EXCEPT ![n] = cond[o]]
        /\ grid' = [grid EXCEPT ![n] = grid[o]]
        /\ inv' = [inv EXCEPT ![n] = inv[o]]
@@ -228,6 +238,7 @@ GridCopy(o, g) ==
                /\ nextcell' = nextcell + 1
           ELSE cell' = [cell EXCEPT ![n] = cell[o]] /\ UNCHANGED <<content, nextcell>>
        /\ pbuf' = [pbuf EXCEPT ![n] = pbuf[o]]
+       /\ pgrid' = [pgrid EXCEPT ![n] = pgrid[o]]
        /\ cond' = [cond EXCEPT ![n] = cond[o]]
        /\ grid' = [grid EXCEPT ![n] = g]
        /\ inv' = [inv EXCEPT ![n] = inv[o]]
@@ -244,6 +255,7 @@ ConditionCopy(o) ==
        /\ target' = [target EXCEPT ![n] = target[o]]
        /\ cell' = [cell EXCEPT ![n] = cell[o]]
        /\ pbuf' = [pbuf EXCEPT ![n] = pbuf[o]]
+       /\ pgrid' = [pgrid EXCEPT ![n] = pgrid[o]]
        /\ cond' = [cond EXCEPT ![n] = nextver]
        /\ grid' = [grid EXCEPT ![n] = grid[o]]
        /\ inv' = [inv EXCEPT ![n] = inv[o]]
@@ -263,6 +275,7 @@ DeepCopy(o) ==
        /\ content' = [content EXCEPT ![nextcell] = IF holder[o] = "callable" THEN 0 ELSE content[cell[o]]]
        /\ nextcell' = nextcell + 1
        /\ pbuf' = [pbuf EXCEPT ![n] = pbuf[o]]
+       /\ pgrid' = [pgrid EXCEPT ![n] = pgrid[o]]
        /\ cond' = [cond EXCEPT ![n] = cond[o]]
        /\ grid' = [grid EXCEPT ![n] = grid[o]]
        /\ inv' = [inv EXCEPT ![n] = inv[o]]
@@ -306,5 +319,5 @@ TypeOK == /\ alive \subseteq Obj /\ 1 \in alive
 
 \* ---------------------------------------------------------------- emission of histories
 Observing == hist # <<>> /\ Last.a \in {"call", "disp"}
-Emit == (EmitCases /\ Observing) => PrintT(ToJson([kind |-> Kind, holder |-> Holder0, hist |-> hist]))
+Emit == (EmitCases /\ Observing) => PrintT(ToJson([kind |-> Kind, holder |-> Holder0, initver |-> InitVer, hist |-> hist]))
 =============================================================================
